@@ -17,7 +17,7 @@ Outside an exploration ``point()`` is a no-op: the same statements run serially 
 
 Menu       bal2 (``balance`` twice per row, vy between), agg (two aggregates, GROUP BY), insub (IN
            sub-query with a named placeholder inside), fromsub (FROM sub-query), named / pos1 / pos2
-           (placeholders), oc (FROM OPEN ON .. CLOSE ON ..), ht (harness table).  The parsed AST of a
+           (placeholders), ent (the #entries table), oc (FROM OPEN ON .. CLOSE ON ..), ht (harness table).  The parsed AST of a
            statement is SHARED by all threads that execute it; each thread passes its own parameters.
 Configs    shared: one Connection for all threads; separate: one Connection per thread over the same
            entries; different: one Connection per thread over different ledgers.
@@ -118,6 +118,7 @@ MENU = {
               [{'lo': 0, 'cur': 'USD'}, {'lo': 1, 'cur': 'EUR'}, {'lo': 1, 'cur': 'USD'}], ()),
     'pos1': ("SELECT account, vy(1) AS y, number * %s AS m WHERE account ~ 'Assets'", [(2,), (3,), (5,)], ()),
     'pos2': ("SELECT account, vy(1) AS y, number * %s AS m WHERE number > %s", [(2, 0), (3, 1), (5, 0)], ()),
+    'ent': ("SELECT vy(1) AS y, date, narration FROM #entries WHERE type = 'transaction'", None, ()),
     'oc': ("SELECT account, sum(position) AS s FROM OPEN ON 2020-01-03 CLOSE ON 2020-01-05 "
            "WHERE account ~ 'Assets' AND vy(1) = 1 GROUP BY account", None, ()),
     'ht': ("SELECT x, vy(1) AS y, s FROM #ht WHERE x > 0", None, ()),
@@ -298,17 +299,16 @@ def classify(item, i, got, alone):
         return f'no-exception:{sid}', f'returned rows where the serial execution raises {alone!r}'
     if got.desc != alone.desc:
         return f'description:{sid}', f'description {got.desc!r}, serial {alone.desc!r}'
-    if len(got.rows) != len(alone.rows):
-        return f'rowcount:{sid}', f'{len(got.rows)} rows, serial {len(alone.rows)}'
     cols = set()
-    for rg, ra in zip(got.key()[2], alone.key()[2]):
-        for (name, _), vg, va in zip(got.desc, rg, ra):
-            if vg != va:
-                cols.add(name)
-    bal = set(MENU[sid][2])
-    if cols and cols <= bal:
-        return BALANCE_FP, f'wrong running balance in column(s) {sorted(cols)}'
-    return f'value:{sid}:{",".join(sorted(cols))}', f'wrong values in column(s) {sorted(cols)}'
+    if len(got.rows) == len(alone.rows):
+        for rg, ra in zip(got.key()[2], alone.key()[2]):
+            for (name, _), vg, va in zip(got.desc, rg, ra):
+                if vg != va:
+                    cols.add(name)
+        if cols and cols <= set(MENU[sid][2]):
+            return BALANCE_FP, f'wrong running balance in column(s) {sorted(cols)}'
+        return f'rows:{sid}', f'wrong values in column(s) {sorted(cols)}'
+    return f'rows:{sid}', f'{len(got.rows)} rows, serial {len(alone.rows)}'
 
 
 def describe(out):
@@ -360,18 +360,28 @@ def run_item(item, acc, on_violation=None):
     outkey = ('outcomes', item.mode, item.config, item.ids, item.bound)
     joint = lambda o: tuple(okey(r) for r in o.results)   # noqa: E731
 
+    confirmed = {}
+
     def visit(out):
         acc.count('evaluations', len(out.results))
         acc.add(outkey, hash(joint(out)))
         bad = check_outcome(item, out, acceptable, alone)
         if not bad:
             return
-        # a failing schedule counts only if it reproduces exactly, twice, from fresh state
-        reps = sched.confirm(item.world, out, joint, times=2, record_tags=True, **kw)
-        acc.count('confirm_replays', 2)
         acc.count('violating_schedules')
         for fp, what in bad:
             acc.count('violating|' + fp)
+        # a failing schedule is reported only if it reproduces exactly, twice, from fresh state; per work item and
+        # fingerprint the first CONFIRM_PER_FP failing schedules are confirmed, later ones are only counted
+        bad = [b for b in bad if confirmed.get(b[0], 0) < CONFIRM_PER_FP]
+        if not bad:
+            acc.count('violating_schedules_not_replayed')
+            return
+        for fp, _ in bad:
+            confirmed[fp] = confirmed.get(fp, 0) + 1
+        reps = sched.confirm(item.world, out, joint, times=2, record_tags=True, **kw)
+        acc.count('confirm_replays', 2)
+        for fp, what in bad:
             first_switch = next((k for k, t in enumerate(out.trace) if t != out.trace[0]), len(out.trace))
             rank = (len(item.ids), item.mode == 'line', out.preemptions, out.switches, first_switch, len(out.trace),
                     CONFIGS.index(item.config))
@@ -455,6 +465,7 @@ def plan(ctx):
     return specs, pts, lpts
 
 
+CONFIRM_PER_FP = 40
 LINE2_CAP = 8000     # executions per sub-shard of a 2-preemption line-granularity item
 
 
@@ -521,7 +532,7 @@ def run(ctx):
     for fp, lst in best.items():
         n = total.n.get('violating|' + fp, 0)
         for msg, cj in lst[:1]:
-            violations.append(Violation(fp, f'{msg}  [{n} violating schedule(s) in this run, all replayed twice]', json.loads(cj)))
+            violations.append(Violation(fp, f'{msg}  [{n} violating schedule(s) in this run; reported ones reproduced twice from fresh state]', json.loads(cj)))
 
     per_config = {}
     outcome_sets = {k: v for k, v in total.sets.items() if isinstance(k, tuple) and k[0] == 'outcomes'}
@@ -577,6 +588,7 @@ def run(ctx):
         'line_points_per_statement_alone': lpts,
         'per_configuration': per_config,
         'violating_schedules': total.n['violating_schedules'],
+        'violating_schedules_not_replayed': total.n['violating_schedules_not_replayed'],
         'violating_schedules_by_fingerprint': {k.split('|', 1)[1]: v for k, v in total.n.items() if k.startswith('violating|')},
         'confirm_replays': total.n['confirm_replays'],
         'deadlocks': total.n['deadlocks'],
